@@ -425,8 +425,21 @@ theorem isEor (h : Ctx cfg c m) : m.isEor = (expected cfg c).isEor := by
       | some p =>
         obtain ⟨ty, b⟩ := p
         simp only [Option.map_some, Option.some.injEq, Prod.mk.injEq] at hj
-        obtain ⟨rfl, hi⟩ := hj
-        simp only [hi, okItems, h.hasMpNlri]
+        -- TContent only holds MP_UNREACH_NLRI of the 13 families: no octets iff no NLRI
+        obtain ⟨f, ap, hk⟩ : ∃ f ap, ty' = NlriTy.known f ap := by
+          simp only [TContent.unreachOf] at ho
+          split at ho
+          · simp only [Option.some.injEq, Prod.mk.injEq] at ho; exact ⟨_, _, ho.1.symm⟩
+          · cases ho
+        obtain ⟨hty, hi⟩ := hj
+        have hb : b.isEmpty = l.isEmpty := by
+          have h1 := enumItems_known_nil_iff f ap b
+          rw [← hk, ← hty, hi] at h1
+          simp only [okItems, List.map_eq_nil_iff] at h1
+          rw [Bool.eq_iff_iff, List.isEmpty_iff, List.isEmpty_iff]
+          exact h1.symm
+        subst hty
+        simp only [hb, h.hasMpNlri]
         have e1 : m.wd.isEmpty = true ↔ c.wd = [] := by rw [List.isEmpty_iff]; exact h.wd_nil
         have e2 : m.ann.isEmpty = true ↔ c.ann = [] := by rw [List.isEmpty_iff]; exact h.ann_nil
         cases l with
